@@ -48,7 +48,9 @@ func main() {
 				lines = append(lines, l)
 			}
 		}
-		*count = len(lines)
+		if *count > len(lines) {
+			*count = len(lines)
+		}
 	}
 	runOne := func(e *emitter, propName string, idx, gidx int) {
 		prop := &propName
@@ -198,6 +200,19 @@ func main() {
 				c = genC20(r, gidx, *tier, *prop)
 			}
 			runC20(e, idx, c)
+		case "C17gen", "C17":
+			var c *TextCase
+			if desc != "" {
+				c = &TextCase{}
+				mustJSON(desc, c)
+			} else {
+				c = genC17(r, gidx, *tier)
+			}
+			if *prop == "C17gen" {
+				runC17gen(e, idx, c)
+			} else {
+				runC17(e, idx, c)
+			}
 		default:
 			fmt.Fprintln(os.Stderr, "unknown property", *prop)
 			os.Exit(2)
